@@ -27,6 +27,10 @@ def specs_for(ctx):
         dict(D=2, target="outside", box="sym", noise="declared", sigma=0.3, options=dict(max_fun_evals=70, noise_final_samples=3), seed=sd + 3),
         dict(D=1, target="outside", box="sym", noise="det", x0="absent", options=dict(max_fun_evals=40), seed=sd + 4),
         dict(D=2, target="outside", box="mixed", noise="det", options=dict(max_fun_evals=80), seed=sd + 5),
+        dict(D=2, target="outside", box="logbig", noise="det", options=dict(max_fun_evals=70), seed=sd + 6),
+        dict(D=2, target="outside", box="dec", noise="det", options=dict(max_fun_evals=60), seed=sd + 7),
+        dict(D=2, target="outside", box="declog", noise="det", options=dict(max_fun_evals=60), seed=sd + 8),
+        dict(D=2, target="sphere", box="logbig", noise="specified", sigma=0.3, cons=None, options=dict(max_fun_evals=60, noise_final_samples=2), seed=sd + 9),
     ]
     return specs
 
